@@ -50,6 +50,32 @@ class Clock(object):
         self.cb_budget = cb_budget
 
 
+class WallBudget(BaseException):
+    """Backstop for loops the simulated clocks cannot see (e.g. the `while child is not None` walk of
+    StackBasedEngine.find_cycle over a cyclic parent chain under an unbuffered engine): a real-time limit per run.
+    Its verdict is never used: such a run is inconclusive and counted."""
+
+
+class wall_guard(object):
+    def __init__(self, seconds=30):
+        self.seconds = seconds
+
+    def _fire(self, signum, frame):
+        raise WallBudget()
+
+    def __enter__(self):
+        import signal
+        self._old = signal.signal(signal.SIGALRM, self._fire)
+        signal.setitimer(signal.ITIMER_REAL, self.seconds)
+        return self
+
+    def __exit__(self, *exc):
+        import signal
+        signal.setitimer(signal.ITIMER_REAL, 0)
+        signal.signal(signal.SIGALRM, self._old)
+        return False
+
+
 CLOCK = Clock()
 _wrapped = set()
 
@@ -311,6 +337,8 @@ def outcome_of_exception(e):
         return {"kind": "budget", "cls": "StepBudget", "site": []}
     if isinstance(e, CycleBreakBudget):
         return {"kind": "budget", "cls": "CycleBreakBudget", "site": []}
+    if isinstance(e, WallBudget):
+        return {"kind": "budget", "cls": "CycleBreakBudget", "site": [], "wall": True}
     if isinstance(e, RecursionError):
         return {"kind": "budget", "cls": "RecursionError", "site": site_of(e)}
     if isinstance(e, ProbLogError):
@@ -359,6 +387,8 @@ def run_pipeline(text, engine_factory=None, sched=None, budget=200000, sort_list
     CLOCK.reset(budget)
     install_scheduler(sched)
     fast = None
+    guard = wall_guard(30)
+    guard.__enter__()
     try:
         try:
             eng = (engine_factory or default_engine_factory)()
@@ -399,6 +429,7 @@ def run_pipeline(text, engine_factory=None, sched=None, budget=200000, sort_list
                 if kind_tag(fast) != kind_tag(o) and o["kind"] != "budget":
                     o["fast_mismatch"] = "real %s vs fast %s" % (kind_tag(o), kind_tag(fast))
     finally:
+        guard.__exit__()
         install_scheduler(None)
         CLOCK.budget = None
         CLOCK.cb_budget = None
